@@ -378,6 +378,9 @@ func c08(r *hx.Run) {
 		alter := func(id string, f func(t map[string]interface{})) {
 			t := fx.MustJSON(string(jcs.MustCanon(tree))).(map[string]interface{})
 			f(t)
+			if string(jcs.MustCanon(t)) == string(jcs.MustCanon(tree)) {
+				return // the alteration is the identity for this document (e.g. removing the second patch of a one-patch delta)
+			}
 			mustReject("member-alteration", "alt|"+id, ns+":"+suffix+":"+fx.B64(jcs.MustCanon(t)))
 		}
 		sd := func(t map[string]interface{}) map[string]interface{} { return t["suffixData"].(map[string]interface{}) }
